@@ -7,6 +7,27 @@ ALL = ["C%02d" % i for i in range(1, 21)]
 
 # id -> (level category, technique, level text, level note, design ref)
 CHECKS = {
+    "C01": (
+        "model_checking",
+        "bounded-exhaustive enumeration of grammars x token strings; real parser vs Earley recogniser and derivation-tree validator",
+        "Every grammar of the listed universes and structured families that table construction accepts is parsed by the real parser on every token string up to the length bound; every clean acceptance must return a tree that is a derivation of exactly that input from the start rule and must be a sentence according to an independent Earley recogniser; on conflict-free tables acceptance must equal membership in both directions. The references are cross-checked against brute-force language enumeration on each run. The per-state automaton certificate (closure exactness, edge kernels, start kernel, table = automaton) that extends the verdict to all inputs of each grammar is evaluated by C16/C03 on the same grammars.",
+        "Inputs longer than the bound and grammars larger than the universes are outside the claim; grammars with derivation cycles are checked at table level only.",
+        "DESIGN.md 3/C01",
+    ),
+    "C02": (
+        "model_checking",
+        "bounded-exhaustive enumeration of LR(1) grammars x token strings; Pager-minimised automaton vs an independent canonical LR(1) construction and parser",
+        "For every grammar of the universes, the LR(1)-not-LALR(1) family (all subsets of the classic counter-example and two variants), the seed grammars and their complete edit-distance-1 neighbourhood whose canonical LR(1) automaton is conflict-free: the real construction must report no conflicts and no more states than the canonical automaton, and for every input up to the bound the real parser and the canonical LR(1) parser must return the same tree or fail at the same lexeme.",
+        "Late merges that need longer propagation chains than these grammars contain are outside the bound.",
+        "DESIGN.md 3/C02",
+    ),
+    "C04": (
+        "model_checking",
+        "bounded-exhaustive enumeration of conflict-free productive grammars x rejected inputs; error position vs Earley viable-prefix oracle",
+        "For every conflict-free table of a grammar whose rules are all productive and every rejected input up to the bound: with recovery off the result must be no value and exactly one error at the first lexeme (or the synthetic end-of-input lexeme, placed at the end of the last lexeme) where the input stops being a viable prefix according to the Earley oracle; with CPCT+ on, the first error must be at the same lexeme.",
+        "Viable-prefix oracle = Earley on the productive-pruned grammar, validated against brute-force prefix enumeration.",
+        "DESIGN.md 3/C04",
+    ),
     "C03": (
         "model_checking",
         "bounded-exhaustive enumeration of grammars x precedence configurations; every (state, token) cell re-derived from the item sets by an independent oracle",
